@@ -479,8 +479,25 @@ func (p *Path) chanClose(th *Thread, ch ChanV) bool {
 
 func (p *Path) execSelect(th *Thread, fr *Frame, x *ssa.Select) {
 	tc := p.tc()
+	// A blocked select counts as a waiting receiver on its unbuffered receive channels, so that a
+	// sender can hand its value over (the hand-off slot is cd.buf, as for a plain receive). Once a
+	// sender has committed a value there, the select must take one of the committed cases: schedules
+	// in which another case wins are the ones where that sender simply has not sent yet.
+	selKey := func(ch ChanV) string { return fmt.Sprintf("selwait:%d:%d", th.id, ch.id) }
+	unregister := func() {
+		for _, st := range x.States {
+			ch := p.get(fr, st.Chan).(ChanV)
+			if ch.id == 0 || st.Dir != 2 {
+				continue
+			}
+			if _, ok := p.ghost[selKey(ch)]; ok {
+				delete(p.ghost, selKey(ch))
+				p.h.chanData(ch, true).recvWaiting--
+			}
+		}
+	}
 	// find ready cases
-	var ready []int
+	var ready, committed []int
 	for i, st := range x.States {
 		ch := p.get(fr, st.Chan).(ChanV)
 		if ch.id == 0 {
@@ -490,6 +507,9 @@ func (p *Path) execSelect(th *Thread, fr *Frame, x *ssa.Select) {
 		if st.Dir == 2 /* types.RecvOnly */ {
 			if len(cd.buf) > 0 || cd.closed {
 				ready = append(ready, i)
+				if cd.cap == 0 && len(cd.buf) > 0 {
+					committed = append(committed, i)
+				}
 			}
 		} else {
 			limit := cd.cap
@@ -530,6 +550,18 @@ func (p *Path) execSelect(th *Thread, fr *Frame, x *ssa.Select) {
 			return
 		}
 		states := x.States
+		for _, st := range states {
+			ch := p.get(fr, st.Chan).(ChanV)
+			if ch.id == 0 || st.Dir != 2 {
+				continue
+			}
+			if cd := p.h.chanData(ch, true); cd.cap == 0 {
+				if _, ok := p.ghost[selKey(ch)]; !ok {
+					p.ghost[selKey(ch)] = true
+					cd.recvWaiting++
+				}
+			}
+		}
 		p.block(th, func() bool {
 			for _, st := range states {
 				ch := p.get(fr, st.Chan).(ChanV)
@@ -549,6 +581,10 @@ func (p *Path) execSelect(th *Thread, fr *Frame, x *ssa.Select) {
 		}, "select")
 		return
 	}
+	if len(committed) > 0 {
+		ready = committed
+	}
+	unregister()
 	pick := ready[0]
 	if len(ready) > 1 {
 		pick = ready[p.chooseN(len(ready), "select")]
